@@ -21,6 +21,7 @@ type C09Case struct {
 	Mode  string `json:"mode"` // safe | reuse | incr
 	Via   string `json:"via"`  // method | pkg
 	Dst   *Opnd  `json:"dst,omitempty"`
+	DstT  bool   `json:"dstT,omitempty"` // the destination is lazily transposed into the result's shape
 	Eng   string `json:"engine,omitempty"`
 }
 
@@ -38,7 +39,7 @@ func (c *C09Case) NTKey() string {
 	if prod(c.A.Shape) < 2 {
 		return ""
 	}
-	return fmt.Sprintf("%s|%s|%v%v|%s|%v|%v|%s|%s|%s", c.Op, c.DT, c.A.Shape, c.A.L, opndKey(c.B), c.AxesA, c.AxesB, c.Mode, c.Via, c.Eng)
+	return fmt.Sprintf("%s|%s|%v%v|%s|%v|%v|%s|%s|%s|%v", c.Op, c.DT, c.A.Shape, c.A.L, opndKey(c.B), c.AxesA, c.AxesB, c.Mode, c.Via, c.Eng, c.DstT)
 }
 
 func opndKey(o *Opnd) string {
@@ -241,9 +242,14 @@ func (c *C09Case) Run() string {
 	want, fits := c.model(A.arr, bArr)
 	var opts []tensor.FuncOpt
 	var Dst *opndB
-	if fits && (c.Mode == "reuse" || c.Mode == "incr") && c.Dst != nil {
+	if fits && (c.Mode == "reuse" || c.Mode == "incr" || c.Mode == "reuse+incr") && c.Dst != nil {
 		dst := *c.Dst
 		dst.Shape = want.Shape
+		if c.DstT && len(want.Shape) >= 2 && prod(want.Shape) > 1 {
+			// a destination that already has the right logical shape, through a pending lazy transposition
+			dst.L = Layout{Root: "rm", Steps: []LStep{{Op: "T", Perm: revPerm(len(want.Shape))}}}
+			rec.Class("destination:lazyT")
+		}
 		if len(dst.Codes) < prod(want.Shape) {
 			dst.Codes = append(dst.Codes, make([]int64, prod(want.Shape)-len(dst.Codes))...)
 		}
@@ -251,10 +257,16 @@ func (c *C09Case) Run() string {
 			return msg
 		}
 		withEngine(Dst.b.T, c.Eng)
-		if c.Mode == "reuse" {
+		switch c.Mode {
+		case "reuse":
 			opts = append(opts, tensor.WithReuse(Dst.b.T))
-		} else {
+		case "incr":
 			opts = append(opts, tensor.WithIncr(Dst.b.T))
+		default:
+			// both at once: the product goes through the reuse tensor and is added into the increment
+			// tensor, which is returned (the dispatching Dot forwards the pair to the products)
+			scratch := tensor.New(tensor.Of(d.T), tensor.WithShape(want.Shape...))
+			opts = append(opts, tensor.WithReuse(scratch), tensor.WithIncr(Dst.b.T))
 		}
 	}
 	desc := fmt.Sprintf("%s(%s, mode %s via %s eng %q) a=%v%v b=%s axes %v/%v", c.Op, c.DT, c.Mode, c.Via, c.Eng, c.A.Shape, c.A.L, opndKey(c.B), c.AxesA, c.AxesB)
@@ -366,7 +378,7 @@ func (c *C09Case) Run() string {
 	}
 	rec.Class("computed")
 	c09Last = fmt.Sprint(res)
-	if c.Mode == "incr" && Dst != nil {
+	if (c.Mode == "incr" || c.Mode == "reuse+incr") && Dst != nil {
 		w := Arr{DT: want.DT, Shape: want.Shape, E: make([]interface{}, len(want.E))}
 		for k := range want.E {
 			w.E[k], _ = binop("Add", Dst.arr.E[k], want.E[k])
@@ -524,6 +536,7 @@ func genC09(rt *rapid.T, op string, d DT, mode string, layouts []string) *C09Cas
 	if mode != "safe" {
 		dst := Opnd{Shape: []int{1}, Codes: genCodes(rt, 64, -3, 4, 0, "dstv"), L: Layout{Root: "rm"}}
 		c.Dst = &dst
+		c.DstT = rapid.IntRange(0, 3).Draw(rt, "dstT") == 0
 	}
 	return c
 }
@@ -534,6 +547,9 @@ func TestC09(t *testing.T) {
 			modes := []string{"safe", "reuse", "incr"}
 			if op == "Inner" || op == "Trace" || op == "TensorMul" {
 				modes = []string{"safe"}
+			}
+			if op == "MatVecMul" || op == "MatMul" || op == "Dot" {
+				modes = append(modes, "reuse+incr")
 			}
 			for _, mode := range modes {
 				op, d, mode := op, d, mode
@@ -611,7 +627,7 @@ func avoidC09Regions(c *C09Case) *C09Case {
 		c.Mode = "safe"
 		c.Dst = nil
 	}
-	if c.Op == "Dot" && c.Mode == "incr" && prod(c.A.Shape) == 1 && c.B != nil && prod(c.B.Shape) == 1 {
+	if c.Op == "Dot" && (c.Mode == "incr" || c.Mode == "reuse+incr") && prod(c.A.Shape) == 1 && c.B != nil && prod(c.B.Shape) == 1 {
 		rec.Class("excluded:F17")
 		c.Mode = "reuse"
 	}
@@ -636,7 +652,7 @@ func inF29(c *C09Case) bool {
 		return true
 	}
 	blas := (va || len(c.A.Shape) == 2) && (vb || len(c.B.Shape) == 2)
-	return !blas && c.Mode == "incr"
+	return !blas && (c.Mode == "incr" || c.Mode == "reuse+incr")
 }
 
 var c09Last string
